@@ -53,6 +53,19 @@ CHECKS = {
             "Each case is run with limits {1,2,3,5,|A|,|A|+1} under default and all-off settings; a successful limited run must be "
             "a duplicate-free subset of the unlimited answer of the same settings with exactly min(N,|A|) rows.",
             TB, "7 C08"),
+    "C10": ("session", "TLC-enumerated request interleavings of session scripts (MC_Session.tla, isolation statements model-checked) "
+            "submitted to the real Handler; every observed step judged by SessionTrace.tla against Session.tla / Datalog!Answer",
+            "model_checking",
+            "Session.tla: persistent facts/rules plus per-session ephemeral facts/rules; one request = one action; a session query is "
+            "answered by Datalog!Answer over persistent data + that session's own facts and rules. MC_Session enumerates every "
+            "interleaving of three script sets (negation over own facts vs a writer; a session rule sharing a persistent rule's head, "
+            "retraction, request-local program; recursion with three sessions) and checks KeepsPersistent / KeepsOtherAnswers / "
+            "LocalLeavesNothing in every state. Each interleaving (quick: seeded sample of 120 per set) plus 500 (thorough 8000) random "
+            "scripts run on a real Handler; after every request the whole observed state (persistent facts, number of persistent "
+            "clauses, every session's ephemeral facts and number of rules) must equal the specification state and every query's rows "
+            "must equal Session!Ans.",
+            "Interleaving granularity is the whole request (one client thread drives the Handler): races inside a request between "
+            "threads of different sessions are not explored. Integers only. " + TB, "7 C10"),
     "C11": ("store-replay", "TLC-enumerated histories (MC_Store) replayed on the real StorageEngine; every step judged by StoreTrace.tla",
             "model_checking",
             "TLC enumerates every history of length 4 (thorough: 5) over {ins t1, ins t2, ins [t1,t1], ins [t1,t2], del t1, del t2, "
@@ -245,6 +258,9 @@ ENGINES.append({"name": "laws", "path": "tools/eng_laws.py", "serves_properties"
                                   "IndexTrace.tla, VecIndexTrace.tla, LawsTrace.tla"})
 ENGINES.append({"name": "proof", "path": "tools/eng_proof.py", "serves_properties": ["C21", "C22", "C23"],
                 "kind_free_text": ".why / .why_not answers of the real Handler judged by spec/ProofTrace.tla over Datalog!Model"})
+ENGINES.append({"name": "session", "path": "tools/eng_session.py", "serves_properties": ["C10"],
+                "kind_free_text": "spec/MC_Session.tla enumerates request interleavings of session scripts; the harness submits "
+                                  "them to the real Handler; spec/SessionTrace.tla judges state and answers against Session.tla"})
 ENGINES.append({"name": "sched", "path": "tools/eng_sched.py", "serves_properties": ["C15", "C17", "C19", "C20"],
                 "kind_free_text": "spec/MC_Sched.tla enumerates thread interleavings over the cfg-guarded scheduling points; the harness "
                                   "controller forces each on real threads and takes crash images; spec/SchedTrace.tla judges "
